@@ -27,6 +27,21 @@ _BARE_FILE_IGNORE = re.compile(
 )
 
 
+_LINE_BREAK = re.compile(r"\r\n|\r|\n")
+
+
+def source_lines(text: str) -> list[str]:
+    """Split source text into lines the way compilers count them (\\n, \\r\\n, \\r).
+
+    str.splitlines() also breaks at form feed, vertical tab, FS/GS/RS, NEL and the Unicode
+    line/paragraph separators, which shifts every directive lookup below such a character.
+    """
+    lines = _LINE_BREAK.split(text)
+    if lines and lines[-1] == "":
+        lines.pop()
+    return lines
+
+
 def has_bare_file_ignore(line: str) -> bool:
     """Check if line has an ignore-file directive that names no rule (see has_bare_line_ignore)."""
     return _BARE_FILE_IGNORE.search(line) is not None
